@@ -165,6 +165,87 @@ def settings_corr(chk, n):
                     break
 
 
+def configure_corr(chk, n):
+    """histories of `schema.configure(...)` calls on one loaded schema against `configure` of the model: what every setting is
+    afterwards; replay: a rate limit given once is still in force after calls that do not mention it"""
+    import schemathesis
+    from schemathesis.generation import GenerationConfig
+    from schemathesis.core.output import OutputConfig
+    rng = chk.rng
+    drv = E_driver()
+    gens = [GenerationConfig(allow_x00=bool(i % 2)) for i in range(3)]
+    outs_ = [OutputConfig() for _ in range(3)]
+    urls = ["http://127.0.0.1:1/a", "http://127.0.0.1:2/b", "http://127.0.0.1:3"]
+    rates = ["10/s", "3/m", "100/h"]
+    work, reqs = [], []
+    for i in range(n):
+        schema = schemathesis.openapi.from_dict(E.RAW)
+        g0, o0 = schema.generation_config, schema.output_config
+        calls, wire, limiters = [], [], {}
+        for _ in range(rng.randint(1, 4)):
+            kw, w = {}, {}
+            for key, pool in (("base_url", urls), ("location", urls), ("rate_limit", rates), ("generation", gens), ("output", outs_), ("app", [object(), object()])):
+                r = rng.random()
+                if r < (0.55 if key != "rate_limit" else 0.45):
+                    continue
+                if r < 0.65 and key in ("base_url", "location", "rate_limit", "app"):
+                    kw[key], w[key] = None, None
+                else:
+                    j = rng.randrange(len(pool))
+                    kw[key], w[key] = pool[j], j + 1
+            schema.configure(**kw)
+            if isinstance(kw.get("rate_limit"), str):
+                limiters[id(schema.rate_limiter)] = w["rate_limit"]
+            calls.append(kw)
+            wire.append(w)
+
+        def ident(v, pool, first=None):
+            if v is None:
+                return None
+            if first is not None and v is first:
+                return 0
+            return next((j + 1 for j, p in enumerate(pool) if p is v or (isinstance(p, str) and p == v)), -1)
+        impl = {"base_url": ident(schema.base_url, urls), "location": ident(schema.location, urls),
+                "rate_limit": None if schema.rate_limiter is None else limiters.get(id(schema.rate_limiter), -1),
+                "generation": ident(schema.generation_config, gens, g0), "output": ident(schema.output_config, outs_, o0),
+                "app": None if schema.app is None else next((j + 1 for j, c in enumerate(calls) if False), 1) if False else
+                (None if schema.app is None else [w["app"] for w, c in zip(wire, calls) if c.get("app") is schema.app][-1])}
+        work.append((wire, impl))
+        reqs.append(("configure", {"calls": wire}))
+    for (wire, impl), m in zip(work, drv.batch(reqs)):
+        if isinstance(m, dict) and "__err__" in m:
+            raise InfraError(f"model error {m}")
+        chk.case("schema.configure:history", key=wire, nontrivial=len(wire) > 1, sample={"calls": wire, "impl": impl})
+        chk.feature(f"configure:calls={len(wire)}")
+        if impl != m:
+            chk.disagreement("schema.configure:history", {"calls": wire}, m, impl)
+        given = [w["rate_limit"] for w in wire if "rate_limit" in w]
+        if given and given[-1] is not None and impl["rate_limit"] != given[-1]:
+            chk.violation("C12:configure:rate-limit-lost-by-a-later-configure-call",
+                          f"rate limit #{given[-1]} was configured, later calls do not mention rate_limit, yet the schema's "
+                          f"limiter is {impl['rate_limit']!r}", {"calls": wire, "after": impl})
+
+
+def state_machine_test_case_settings(chk):
+    """The pytest / unittest route to the stateful bounds: `Machine.TestCase.settings = settings(stateful_step_count=…)`.
+    The settings reach the run only if every access to `Machine.TestCase` gives the class they were assigned to."""
+    import hypothesis
+    schema = E.load_schema("http://127.0.0.1:9", raw=E.STATEFUL_RAW)
+    machine = schema.as_state_machine()
+    mine = hypothesis.settings(max_examples=3, stateful_step_count=2, deadline=None, database=None)
+    first = machine.TestCase
+    first.settings = mine
+    again = machine.TestCase
+    chk.case("stateful:TestCase.settings", key="identity", nontrivial=True,
+             sample={"same_class": again is first, "settings_kept": getattr(again, "settings", None) is mine})
+    if again is not first or getattr(again, "settings", None) is not mine:
+        chk.violation("C12:APIStateMachine.TestCase:settings-assigned-to-the-test-case-class-are-lost",
+                      "Machine.TestCase.settings = settings(stateful_step_count=2, max_examples=3) is not what the next "
+                      f"access to Machine.TestCase carries (same class: {again is first}; stateful_step_count seen: "
+                      f"{getattr(getattr(again, 'settings', None), 'stateful_step_count', None)}): the run falls back to the defaults",
+                      {"configured": {"stateful_step_count": 2, "max_examples": 3}})
+
+
 def limit_runs(chk, n):
     from schemathesis.engine.phases import PhaseName
     rng = chk.rng
@@ -414,6 +495,8 @@ def run(chk):
     for _ in E.worker_correspondence(chk, chk.budget(80, 1000)):
         pass
     settings_corr(chk, chk.budget(60, 600))
+    configure_corr(chk, chk.budget(150, 2000))
+    state_machine_test_case_settings(chk)
     limit_runs(chk, chk.budget(10, 120))
     examples_runs(chk, chk.budget(6, 60))
     after_stop_runs(chk, chk.budget(6, 60))
